@@ -72,6 +72,9 @@ mut("c12_quiesce_cannot_stand_pat", EN, "    if alpha < stand_pat {\n        alp
 mut("c12_null_move_at_depth_2", EN, "    if allow_null && depth >= 3 && !is_check(board, board.to_move) {", "    if allow_null && depth >= 2 && !is_check(board, board.to_move) {", ["C12"])
 mut("c12_draw_check_after_depth0", EN, "    // check for draw\n    if draw_table.is_threefold_repetition(board) {\n        return 0;\n    }\n\n    draw_table.add_board_to_draw_table(board);\n\n    if depth == 0 {", "    draw_table.add_board_to_draw_table(board);\n\n    if depth == 0 {", ["C12", "C10"])
 
+mut("c07_null_move_prune_forgets_record_removal", EN, "        if eval >= beta {\n            // null move prune\n            draw_table.remove_board_from_draw_table(board);\n            return beta;\n        }", "        if eval >= beta {\n            // null move prune\n            return beta;\n        }", ["C07"])
+mut("c07_null_move_keeps_side_key", EN, "        let mut b = board.clone();\n        b.to_move = board.to_move.opposite();", "        let mut b = board.clone();\n        b.swap_color(zobrist_hasher);", [])  # arguably a fix (the null-move child gets its own key); must not alarm
+
 # ---- C15 (loader)
 mut("c15_unicode_digits", BD, "                if square.is_digit(10) {", "                if square.is_numeric() {", ["C15"])
 mut("c15_skip_bound_off_by_one", BD, "                    if square_skip_count + col > BOARD_END {", "                    if square_skip_count + col > BOARD_END + 1 {", ["C15"])
